@@ -97,6 +97,18 @@ func (c *Ctx) define(hint string, t *Term) *Term {
 	return s
 }
 
+// abbreviate is define for a term that must keep its age: the new name stands for a value that existed when the
+// newest symbol of t did (entry-state and loop-threshold tests look at MaxSym).
+func (c *Ctx) abbreviate(hint string, t *Term) *Term {
+	if t.Bound {
+		return t
+	}
+	c.symN++
+	name := smtSym(fmt.Sprintf("%s!%d", hint, c.symN))
+	c.decls = append(c.decls, fmt.Sprintf("(declare-const %s %s)\n(assert (= %s %s))", name, t.Sort, name, t.String()))
+	return Sym(name, t.Sort, t.MaxSym)
+}
+
 // skolemize replaces positively occurring universal quantifiers of a goal by fresh constants.
 func (c *Ctx) skolemize(t *Term) *Term {
 	switch {
